@@ -21,6 +21,7 @@ type clientHello struct {
 	ALPNProtos []string
 
 	hasECHOuterExtensions bool
+	hasTrailingData       bool
 	tls13                 bool
 	echExt                *echExt
 }
@@ -216,6 +217,10 @@ func parseClientHello(buf []byte) (*clientHello, error) {
 	if err := hello.parseExtensions(); err != nil {
 		return nil, err
 	}
+	// Bytes that follow the extensions, or the handshake message. They are
+	// the padding of an EncodedClientHelloInner; nothing may follow a
+	// ClientHello received in a record.
+	hello.hasTrailingData = !s.Empty() || !zeros.Empty()
 	if hello.echExt != nil && hello.echExt.Type == 1 {
 		// The padding of an EncodedClientHelloInner follows the
 		// extensions, inside or after the handshake message framing.
